@@ -49,6 +49,26 @@ const CLASSES: [&str; 11] = [
     "tiny-nonsym-posdiag",
 ];
 
+/// Second family (stream 2): the negated twin of every symmetric / positive-diagonal class (the routing
+/// predicate looks at symmetry and at the signs of the diagonal, so the mirror images belong to the
+/// same quantifier), symmetric matrices with a mixed-sign or partly zero diagonal, and structured band
+/// matrices (tri-, penta-, bi-diagonal, Hessenberg) whose diagonal is weak (tiny or exactly zero
+/// entries), so that elimination without row exchanges would break down or lose all accuracy.
+const CLASSES2: [&str; 12] = [
+    "neg-spd",
+    "neg-spd-sparse",
+    "sym-indef-negdiag",
+    "sym-mixed-diag",
+    "neg-near-symmetric",
+    "negdiag-skew",
+    "neg-integer-sym",
+    "tridiagonal-weak-diag",
+    "pentadiagonal-weak-diag",
+    "bidiagonal-cyclic",
+    "hessenberg-weak-diag",
+    "banded-dominant",
+];
+
 /// assertion ids of one entry point (static strings: `format!` costs milliseconds under Miri)
 struct Entry {
     name: &'static str,
@@ -462,6 +482,211 @@ fn gen_graded(rng: &mut Rng, n: usize) -> (Vec<f64>, String) {
     (a, format!("uniform(-1,1) rows graded over 1e-{:.2}{}", e, if rev { " (reversed)" } else { "" }))
 }
 
+fn negate(a: &mut [f64]) {
+    a.iter_mut().for_each(|v| *v = -*v);
+}
+
+/// Symmetric, every diagonal entry of either sign or exactly zero (at least one non-positive): no
+/// definite form applies, whatever the routing predicate makes of it.
+fn gen_sym_mixed_diag(rng: &mut Rng, n: usize) -> (Vec<f64>, String) {
+    let mut a = vec![0.0; n * n];
+    let pzero = *rng.choose(&[0.0, 0.2, 1.0]);
+    for i in 0..n {
+        for j in i..n {
+            let v = if i == j {
+                if rng.chance(pzero) {
+                    0.0
+                } else {
+                    rng.range(0.1, 1.0) * if rng.bool() { 1.0 } else { -1.0 }
+                }
+            } else {
+                rng.range(-1.0, 1.0)
+            };
+            a[i * n + j] = v;
+            a[j * n + i] = v;
+        }
+    }
+    let p = rng.usize(0, n - 1);
+    if a[p * n + p] > 0.0 {
+        a[p * n + p] = -a[p * n + p];
+    }
+    (a, format!("symmetric uniform(-1,1), diagonal entries ±(0.1,1) or exactly zero (probability {})", pzero))
+}
+
+/// A diagonal that cannot be trusted as a pivot sequence: each entry is tiny (1e-14..1e-3 relative to
+/// the O(1) off-diagonal entries), exactly zero, or of ordinary size, in proportions drawn per matrix.
+fn weak_diag(rng: &mut Rng, n: usize) -> (Vec<f64>, String) {
+    let ptiny = *rng.choose(&[0.15, 0.5, 0.9, 1.0]);
+    let pzero = *rng.choose(&[0.0, 0.0, 0.15, 0.4]);
+    let d = (0..n)
+        .map(|_| {
+            let sg = if rng.bool() { 1.0 } else { -1.0 };
+            if rng.chance(pzero) {
+                0.0
+            } else if rng.chance(ptiny) {
+                sg * rng.log_range(1e-14, 1e-3)
+            } else {
+                sg * rng.range(0.5, 2.0)
+            }
+        })
+        .collect();
+    (d, format!("diagonal: zero w.p. {}, else tiny (1e-14..1e-3) w.p. {}, else ±(0.5,2)", pzero, ptiny))
+}
+
+fn off_entry(rng: &mut Rng) -> f64 {
+    rng.range(0.5, 2.0) * if rng.bool() { 1.0 } else { -1.0 }
+}
+
+/// Band matrix with `kl` sub- and `ku` super-diagonals filled with ±(0.5,2) and a weak diagonal;
+/// `symmetric` mirrors the upper band.
+fn gen_band_weak(rng: &mut Rng, n: usize, kl: usize, ku: usize, symmetric: bool) -> (Vec<f64>, String) {
+    let (d, dhow) = weak_diag(rng, n);
+    let mut a = vec![0.0; n * n];
+    for i in 0..n {
+        a[i * n + i] = d[i];
+        for j in i + 1..(i + 1 + ku).min(n) {
+            a[i * n + j] = off_entry(rng);
+        }
+        for j in i.saturating_sub(kl)..i {
+            a[i * n + j] = if symmetric { a[j * n + i] } else { off_entry(rng) };
+        }
+    }
+    (a, format!("band matrix, {} sub- and {} super-diagonals of ±(0.5,2){}; {}", kl, ku, if symmetric { ", symmetric" } else { "" }, dhow))
+}
+
+/// Upper or lower bidiagonal plus the opposite corner entry (a cyclic chain): nonsingular even with a
+/// vanishing diagonal, but then every row has to be exchanged.
+fn gen_bidiagonal_cyclic(rng: &mut Rng, n: usize) -> (Vec<f64>, String) {
+    let upper = rng.bool();
+    let (d, dhow) = weak_diag(rng, n);
+    let mut a = vec![0.0; n * n];
+    for i in 0..n {
+        a[i * n + i] = d[i];
+        let j = (i + 1) % n;
+        if n > 1 {
+            if upper {
+                a[i * n + j] += off_entry(rng);
+            } else {
+                a[j * n + i] += off_entry(rng);
+            }
+        }
+    }
+    (a, format!("{} bidiagonal + opposite corner entry (cyclic chain), off-diagonals ±(0.5,2); {}", if upper { "upper" } else { "lower" }, dhow))
+}
+
+/// Upper (or, transposed, lower) Hessenberg: full triangle of uniform(-1,1), one off-diagonal of
+/// ±(0.5,2) on the other side, weak diagonal.
+fn gen_hessenberg_weak(rng: &mut Rng, n: usize) -> (Vec<f64>, String) {
+    let upper = rng.bool();
+    let (d, dhow) = weak_diag(rng, n);
+    let mut a = vec![0.0; n * n];
+    for i in 0..n {
+        for j in 0..n {
+            let v = if i == j {
+                d[i]
+            } else if j > i {
+                rng.range(-1.0, 1.0)
+            } else if j + 1 == i {
+                off_entry(rng)
+            } else {
+                0.0
+            };
+            if upper {
+                a[i * n + j] = v;
+            } else {
+                a[j * n + i] = v;
+            }
+        }
+    }
+    (a, format!("{} Hessenberg, triangle uniform(-1,1), first off-diagonal ±(0.5,2); {}", if upper { "upper" } else { "lower" }, dhow))
+}
+
+/// Strictly diagonally dominant band matrix (random diagonal signs, not symmetric): the benign twin
+/// of the weak-diagonal band classes, for which no row exchange is needed.
+fn gen_banded_dominant(rng: &mut Rng, n: usize) -> (Vec<f64>, String) {
+    let kl = rng.usize(1, 2);
+    let ku = rng.usize(1, 2);
+    let mut a = vec![0.0; n * n];
+    for i in 0..n {
+        for j in i.saturating_sub(kl)..(i + 1 + ku).min(n) {
+            if j != i {
+                a[i * n + j] = rng.range(-1.0, 1.0);
+            }
+        }
+        let off: f64 = (0..n).filter(|&j| j != i).map(|j| a[i * n + j].abs()).sum();
+        a[i * n + i] = (off + rng.range(0.1, 1.0)) * if rng.bool() { 1.0 } else { -1.0 };
+    }
+    (a, format!("band matrix ({} sub-, {} super-diagonals), strictly row diagonally dominant, random diagonal signs", kl, ku))
+}
+
+fn is_symmetric_exact(a: &[f64], n: usize) -> bool {
+    (0..n).all(|i| (i + 1..n).all(|j| a[i * n + j] == a[j * n + i]))
+}
+
+fn generate2(rng: &mut Rng, class: &'static str, n: usize) -> Option<(Sys, f64)> {
+    let k = rng.usize(1, 6);
+    for _attempt in 0..50 {
+        let (mut a, how): (Vec<f64>, String) = match class {
+            "neg-spd" => {
+                let (a, h) = gen_spd(rng, n);
+                (a, format!("-({})", h))
+            }
+            "neg-spd-sparse" => {
+                let (a, h) = gen_spd_sparse(rng, n);
+                (a, format!("-({})", h))
+            }
+            "sym-indef-negdiag" => (gen_sym_indef(rng, n), "-(symmetric uniform(-1,1), diagonal in (0.1,1), one 2x2 principal minor negative)".to_string()),
+            "sym-mixed-diag" => gen_sym_mixed_diag(rng, n),
+            "neg-near-symmetric" => {
+                let (a, h) = gen_near_symmetric(rng, n);
+                (a, format!("-({})", h))
+            }
+            "negdiag-skew" => {
+                let (a, h) = gen_posdiag_skew(rng, n);
+                (a, format!("-({})", h))
+            }
+            "neg-integer-sym" => {
+                // symmetric integer matrix with an all-negative diagonal (definite or not, as it comes)
+                let mut a = vec![0.0; n * n];
+                for i in 0..n {
+                    for j in i..n {
+                        let v = if i == j { rng.int(1, 9) as f64 } else { rng.int(-9, 9) as f64 };
+                        a[i * n + j] = v;
+                        a[j * n + i] = v;
+                    }
+                }
+                (a, "-(symmetric integer matrix, entries -9..9, diagonal in 1..9)".to_string())
+            }
+            "tridiagonal-weak-diag" => { let sy = rng.chance(0.4); gen_band_weak(rng, n, 1, 1, sy) },
+            "pentadiagonal-weak-diag" => { let sy = rng.chance(0.4); gen_band_weak(rng, n, 2, 2, sy) },
+            "bidiagonal-cyclic" => gen_bidiagonal_cyclic(rng, n),
+            "hessenberg-weak-diag" => gen_hessenberg_weak(rng, n),
+            _ => gen_banded_dominant(rng, n),
+        };
+        if matches!(class, "neg-spd" | "neg-spd-sparse" | "sym-indef-negdiag" | "neg-near-symmetric" | "negdiag-skew" | "neg-integer-sym") {
+            negate(&mut a);
+        }
+        let kappa = match cond_ok(&a, n, 1e10) {
+            Some(c) => c,
+            None => continue,
+        };
+        if class == "sym-indef-negdiag" {
+            // the mirror image must be exactly symmetric, negative on the diagonal and not negative definite
+            let mut m = a.clone();
+            negate(&mut m);
+            if !sym_posdiag_not_pd(&m, n) {
+                continue;
+            }
+        }
+        if matches!(class, "neg-spd" | "neg-spd-sparse" | "sym-mixed-diag" | "neg-integer-sym") && !is_symmetric_exact(&a, n) {
+            continue;
+        }
+        let b = rhs(rng, n, k);
+        return Some((Sys { regime: class, n, k, a, b, xstar: None, how }, kappa));
+    }
+    None
+}
+
 /// κ∞ from the double-double inverse; None if singular / too ill-conditioned for the class
 fn cond_ok(a: &[f64], n: usize, limit: f64) -> Option<f64> {
     let c = cond_inf(a, n);
@@ -816,13 +1041,44 @@ fn one_system(rep: &mut Report, s: &Sys, kappa: f64) {
             rep.seen("routing:lu-variant-not-forceable", 1);
         }
     }
+
+    // 9. sign symmetry: (−A)·x = −b has the same solution, but negation flips the sign of every diagonal
+    //    entry, which is one of the two things the routing looks at
+    {
+        let na: Vec<f64> = s.a.iter().map(|v| -v).collect();
+        let b0 = col(&s.b, n, k, 0);
+        let nb: Vec<f64> = b0.iter().map(|v| -v).collect();
+        let before = (count(Site::SolveChol), count(Site::SolveLu));
+        let r = guard(|| solve(&na, &nb));
+        let routing = routed(before, Site::SolveChol, Site::SolveLu);
+        if routing != routing_single {
+            rep.seen("routing:negation-changes-route", 1);
+        }
+        match r {
+            Ok(x) => {
+                let be = backward_error(&na, n, cx.anorm, &x, &nb);
+                let ok = be <= cx.tol;
+                if ok {
+                    rep.note_max("worst_ratio.negated.backward_error_over_n_eps", be / (n as f64 * EPS));
+                }
+                rep.check("C01.negated.residual", s.regime, ok, || cx.detail("solve(-A, -b)", Some(0), routing, json!({"x": jf(&x), "backward_error": jnum(be)})));
+                if let (true, Some(xc)) = (ok, &single[0]) {
+                    cx.check_agree(rep, "C01.negated.agree", "worst_ratio.negated.agree", 0, xc, &x, "solve(A,b) vs solve(-A,-b)");
+                }
+            }
+            Err(e) => {
+                rep.check("C01.negated.no_panic", s.regime, false, || cx.detail("solve(-A, -b)", Some(0), routing, json!({"panic": e})));
+            }
+        }
+    }
     rep.sample(|| json!({"class": s.regime, "how": s.how, "n": n, "rhs_columns": k, "cond_inf": jnum(kappa), "routing_solve": routing_single, "routing_solve_sys": routing_sys}));
 }
 
 pub fn run(cfg: &Cfg, rep: &mut Report) {
-    rep.rule = "case i: class = CLASSES[i mod 11], order n = 1 + (i div 11) mod Nmax (every class meets every order), 1..6 right-hand-side columns at random; each system goes through all six entry points. non-trivial = order >= 2 and A not diagonal; distinct by hash of (class, n, bits of A)".into();
+    rep.rule = "stream 1, case i: class = CLASSES[i mod 11], order n = 1 + (i div 11) mod Nmax (every class meets every order); stream 2 likewise over the 12 classes of CLASSES2 (negated twins of the symmetric / positive-diagonal classes, symmetric matrices with mixed-sign or zero diagonal, tri-/penta-/cyclic bi-diagonal and Hessenberg matrices with tiny or zero diagonal entries, dominant band matrices); 1..6 right-hand-side columns at random; each system goes through all six entry points, and solve(-A,-b) is compared with solve(A,b). non-trivial = order >= 2 and A not diagonal; distinct by hash of (class, n, bits of A)".into();
     rep.assume("A is finite, of order 1..32, nonsingular with cond_inf below 1e10 (1e14 for the graded / triangular classes) as measured by a double-double inverse; singular and non-finite inputs are outside the quantifier");
     rep.assume(&format!("backward-error bound C·n·eps with C = {} and eps = 2^-52, per column: |A x_j - b_j|_inf <= C n eps (|A|_inf |x_j|_inf + |b_j|_inf); forward comparisons use 2·C·n·eps·cond_inf", C));
+    rep.assume("weak-diagonal band classes: off-diagonal band entries ±(0.5,2), diagonal entries zero / tiny (1e-14..1e-3) / ±(0.5,2) in per-matrix proportions, kept only if cond_inf <= 1e10 (the matrices are well conditioned, only their leading pivots are not usable without row exchanges)");
     rep.assume("sym-indef-posdiag needs order >= 2 (order 1 is replaced by 2); tiny-nonsym-posdiag = every |a_ij - a_ji| <= 2^-52 without exact symmetry, positive diagonal (order >= 2)");
     if cfg.miri() {
         rep.assume("Miri layer: 24 systems of order 2, 5, 12; residual sums in plain f64 instead of double-double (adds < 1 to ratios compared with C = 16), cond_inf from an f64 Gauss-Jordan inverse");
@@ -842,8 +1098,41 @@ pub fn run(cfg: &Cfg, rep: &mut Report) {
             None => rep.seen(&format!("generator-gave-up:{}", class), 1),
         }
     });
+    // second family: negated twins and weak-diagonal band matrices, every class at every order
+    let ncases2 = if cfg.miri() { CLASSES2.len() } else { cfg.pick(2304, 46080, 96) };
+    par_cases(cfg, rep, 2, ncases2, |i, rng: &mut Rng, rep| {
+        let class = CLASSES2[i % CLASSES2.len()];
+        let mut n = if cfg.miri() { MIRI_ORDERS[1 + i % 2] } else { 1 + (i / CLASSES2.len()) % nmax };
+        if class == "sym-indef-negdiag" && n < 2 {
+            n = 2;
+        }
+        match generate2(rng, class, n) {
+            Some((s, kappa)) => {
+                if n >= 8 {
+                    rep.seen(match class {
+                        "tridiagonal-weak-diag" => "tridiagonal-weak-diag:order>=8",
+                        "pentadiagonal-weak-diag" => "pentadiagonal-weak-diag:order>=8",
+                        "hessenberg-weak-diag" => "hessenberg-weak-diag:order>=8",
+                        "bidiagonal-cyclic" => "bidiagonal-cyclic:order>=8",
+                        _ => "other:order>=8",
+                    }, 1);
+                }
+                one_system(rep, &s, kappa)
+            }
+            None => rep.seen(&format!("generator-gave-up:{}", class), 1),
+        }
+    });
     for c in CLASSES {
         rep.require(c, 1);
+    }
+    for c in CLASSES2 {
+        rep.require(c, 1);
+    }
+    if !cfg.miri() {
+        for c in ["tridiagonal-weak-diag:order>=8", "pentadiagonal-weak-diag:order>=8", "hessenberg-weak-diag:order>=8", "bidiagonal-cyclic:order>=8"] {
+            rep.require(c, 1);
+        }
+        rep.require("routing:negation-changes-route", 1);
     }
     for site in ["solve.chol", "solve.lu", "solve_sys.chol", "solve_sys.lu"] {
         rep.require(site, 1);
